@@ -151,7 +151,13 @@ def make_files(rng, ctx):
 
 def check_cut(res, f, fi, k, name, make, key, full, clocked):
     data = f['data'][:k]
-    reader = monitors.CountingReader(data)
+    # every fourth cut is also delivered in pieces: a read stops at a piece edge although more data follows (a capture
+    # buffer fed from a pipe or socket); whatever the tool makes of such reads, what it reports stays a prefix
+    edges = ()
+    if (fi + k) % 4 == 0 and k > 2:
+        edges = sorted({(k * 7919 + fi * 31) % k or 1, max(1, k - 1 - (k * 31 + fi) % 64)})
+        res.count('cuts_delivered_in_pieces')
+    reader = monitors.CountingReader(data, edges=edges)
     budget = 2000 * len(data) + 1000000 if clocked else None
     got, exc = collect(make, key, reader, budget)
     res.case((fi, k, name))
@@ -159,7 +165,7 @@ def check_cut(res, f, fi, k, name, make, key, full, clocked):
     res.count(f'cuts_{f["kind"]}')
     if clocked:
         res.count('cuts_under_step_clock')
-    case = {'file': f['data'], 'offset': k, 'pipeline': name}
+    case = {'file': f['data'], 'offset': k, 'pipeline': name, 'piece_edges': list(edges)}
     if isinstance(exc, (monitors.ReadBudgetExceeded, monitors.StepBudgetExceeded)):
         res.violation('c06-no-termination', f'{f["label"]} cut at {k}/{len(f["data"])} ({name}): {exc} '
                       f'({reader.n_reads} reads, {reader.n_empty} of them empty)', case)
@@ -304,6 +310,7 @@ def finalize(res):
     res.require('stopped_with_error', 1)
     res.require('stopped_normally', 1)
     res.require('cli_runs', 1)
+    res.require('cuts_delivered_in_pieces', 100)
 
 
 def replay(case, ctx):
@@ -315,7 +322,7 @@ def replay(case, ctx):
     full, _ = collect(make, key, io.BytesIO(data))
     f = {'kind': 'v2' if data[:4] == wire.V2_MAGIC else 'v3', 'data': data, 'label': 'replay', 'entries': [], 'pad': 0}
     k = case.get('offset', len(data))
-    reader = monitors.CountingReader(data[:k])
+    reader = monitors.CountingReader(data[:k], edges=case.get('piece_edges', ()))
     got, exc = collect(make, key, reader, 2000 * k + 1000000)
     if isinstance(exc, (monitors.ReadBudgetExceeded, monitors.StepBudgetExceeded)):
         res.violation('c06-no-termination', f'cut at {k}: {exc}', case)
